@@ -21,7 +21,7 @@ TRUSTED = ["Coq 8.16.1 kernel + coqc", "extraction (ExtrOcamlBasic) + ocaml/p_sh
            "hooks in /repo under cfg(sneldb_verif): step points, compact_now, abort injection"]
 CLAIMED = True
 MANIFEST = {
- "level_text": "Theorems over the shard state machine Model/Shard.v extended with one compaction batch at a time (Model/Compaction.v: CWrite, CIndex, CLive, CReclaim; the batch is a label checked by batch_ok against the k-way policy). The merge neither drops nor invents rows: for every directory list, batch and type of the batch the output rows of the type are a permutation of its rows in the inputs, and no other type is written. One whole batch from a well-formed state (live ids have directories; unique index labels; a listed type has rows in the directory; every row of a live directory is listed there or, its type retired from that entry, held by a live segment that lists the type; unique event ids among scanned rows up to identical copies; inputs live, output id fresh, batch_ok) leaves EVERY selection unchanged up to order - also for types outside the batch and when an input is drained only partially - and re-establishes the invariant, hence any number of batches/rounds; the invariant holds at every state of every crash-free flush history from the initial state (C03 invariant extended to the index). COUNT: refuted with the witness seg0 {0,1}, seg1 {0}, k=2 (CountAfterPartialDrainOrInMemory); proved exactly: for a type of the batch COUNT grows by the number of its rows in the inputs that stay live, so a batch that drains all of its inputs (e.g. a single event type) preserves COUNT for every type, and such batches preserve exactness. A run that stops after the output write, followed by crash and restart, leaves the index and every selection as without the run; COUNT additionally counts the leftover directory (witness). The model is validated against the engine by trace validation of hooked runs with compaction rounds and abort() at the compaction step points.",
+ "level_text": "Theorems over the shard state machine Model/Shard.v extended with one compaction batch at a time (Model/Compaction.v: CWrite, CIndex, CLive, CReclaim; the batch is a label checked by batch_ok against the k-way policy). The merge neither drops nor invents rows: for every directory list, batch and type of the batch the output rows of the type are a permutation of its rows in the inputs, and no other type is written. One whole batch from a well-formed state (live ids have directories; unique index labels; a listed type has rows in the directory; every row of a live directory is listed there or, its type retired from that entry, held by a live segment that lists the type; unique event ids among scanned rows up to identical copies; inputs live, output id fresh, batch_ok) leaves EVERY selection unchanged up to order - also for types outside the batch and when an input is drained only partially - and re-establishes the invariant, hence any number of batches/rounds; the invariant holds at every state of every crash-free flush history from the initial state (C03 invariant extended to the index). COUNT: refuted with the witness seg0 {0,1}, seg1 {0}, k=2 (CountAfterPartialDrain); proved exactly: for a type of the batch COUNT grows by the number of its rows in the inputs that stay live, so a batch that drains all of its inputs (e.g. a single event type) preserves COUNT for every type, and such batches preserve exactness. A run that stops after the output write, followed by crash and restart, leaves the index and every selection as without the run; COUNT additionally counts the leftover directory (witness). The model is validated against the engine by trace validation of hooked runs with compaction rounds and abort() at the compaction step points.",
  "design_ref": "DESIGN.md \u00a76 C05",
  "level_note": "Trusted: Coq kernel; ExtrOcamlBasic extraction + ocaml/p_shard.ml; the engine harness, tools/engine.py, tools/shardlib.py (trace -> label mapping); hooks under cfg(sneldb_verif) incl. compact_now. Hypotheses: unique event ids (C18); NoDup of the batch's uid list (the planner groups by uid); the output id is fresh (no directory of that name; C11 shows that the allocator hands retired labels out again, which keeps this hypothesis true only because the retired directory was reclaimed). Not covered by the theorems: flush or store labels interleaved INSIDE a batch, REPLAY order after a merge (context order is unspecified between inputs), the stale label-keyed caches after a label is handed out again (finding SegmentLabelReusedStaleCache, detected by the engine oracle only), more than one shard."
 }
@@ -101,8 +101,8 @@ def classify(c, impl, model=None):
         return "SegmentLabelReusedStaleCache"
     if " cnt" in why and model and not shardprop.diffs(c, impl, model):
         # which known aggregate class: rows of a retired type still readable from a partially drained input
-        # (or from a leftover directory after a crash), or the in-memory aggregate ignoring the type
-        return "CountAfterPartialDrainOrInMemory"
+        # (or from a leftover directory after a crash); the model must predict this very count
+        return "CountAfterPartialDrain"
     return None
 
 
